@@ -47,6 +47,15 @@ func c09Oracle(c c09Case) int {
 	if c.NilList {
 		return mustAccept
 	}
+	// attribute types are compared as OIDs: "2.5.4.10" and "O" name the same type
+	canon := func(l []string) []string {
+		out := make([]string, len(l))
+		for i, x := range l {
+			out[i] = keyOID(x)
+		}
+		return out
+	}
+	c.Attrs, c.Subject = canon(c.Attrs), canon(c.Subject)
 	if !c.AllowOther {
 		if embeds(c.Subject, c.Attrs, c.Optional) {
 			return mustAccept
@@ -131,7 +140,7 @@ type c09E2E struct {
 func TestC09(t *testing.T) {
 	r := core.Start(t, "C09")
 	defer r.Finish()
-	r.Rule = "(a) exhaustive at API level: profile attribute lists of length 0..3 (quick) / 0..4 (thorough) over {C,O,OU,CN,1.2.3.4} with duplicates x optional flags x allowOther, plus the nil list; subjects of length 1..4 / 1..5 over the same alphabet plus foreign {L, 2.5.4.99}; every pair is fed to config.Validate and compared with a three-valued oracle (exhaustive embedding search; UNSPECIFIED only for order among listed types under allowOther). (b) end to end through YAML with the schema's attribute names: a rejecting profile must make the run fail with the directory unchanged, an accepting one must generate. Non-trivial = MUST-accept or MUST-reject case with a non-empty list; distinct by the pair."
+	r.Rule = "(a) exhaustive at API level: profile attribute lists of length 0..3 (quick) / 0..4 (thorough) over {C,O,2.5.4.10 (= O as dotted OID),CN,1.2.3.4} with duplicates x optional flags x allowOther, plus the nil list; subjects of length 1..4 / 1..5 over the same alphabet plus foreign {L, 2.5.4.99}; every pair is fed to config.Validate and compared with a three-valued oracle (exhaustive embedding search; UNSPECIFIED only for order among listed types under allowOther). (b) end to end through YAML with the schema's attribute names: a rejecting profile must make the run fail with the directory unchanged, an accepting one must generate. Non-trivial = MUST-accept or MUST-reject case with a non-empty list; distinct by the pair."
 	r.Assumptions = []string{"under allowOther the order among listed attributes is not stated by the property: such cases are counted as unspecified and never fail"}
 	var unspec int
 	wrap := func(c c09Case) *core.Failure {
@@ -246,7 +255,7 @@ func TestC09(t *testing.T) {
 		return
 	}
 	maxList, maxSubj := r.Pick(3, 4), r.Pick(4, 5)
-	alpha := []string{"C", "O", "OU", "CN", "1.2.3.4"}
+	alpha := []string{"C", "O", "2.5.4.10", "CN", "1.2.3.4"} // "2.5.4.10" is O spelled as an OID
 	salpha := []string{"C", "O", "OU", "CN", "1.2.3.4", "L", "2.5.4.99"}
 	var subjects [][]string
 	var recS func(cur []string)
@@ -325,11 +334,21 @@ func TestC09(t *testing.T) {
 				subj = append(subj, core.RDN{Key: k, Value: fmt.Sprintf("v%d", j)})
 			}
 			p := core.Profile{File: fmt.Sprintf("p%d.yaml", i), Name: fmt.Sprintf("prof%d", i)}
+			if i > 0 && rapid.IntRange(0, 2).Draw(t, l+"-namevariant") == 0 {
+				// profile names are exact: these differ from profile 0's name in case / surrounding blanks only
+				p.Name = rapid.SampledFrom([]string{"Prof0", "PROF0", "prof0 ", " prof0"}).Draw(t, l+"-variant")
+				for _, q := range c.W.Profs {
+					if q.Name == p.Name {
+						p.Name = fmt.Sprintf("prof%d", i)
+					}
+				}
+			}
+			pname := p.Name
 			switch rapid.IntRange(0, 5).Draw(t, l+"-shape") {
 			case 0: // no attribute list
 			case 1, 2: // derived from the subject, then perturbed
 				p = genAcceptingProfile(t, subj, l)
-				p.File, p.Name = fmt.Sprintf("p%d.yaml", i), fmt.Sprintf("prof%d", i)
+				p.File, p.Name = fmt.Sprintf("p%d.yaml", i), pname
 				if rapid.Bool().Draw(t, l+"-perturb") && len(p.Attrs) > 0 {
 					j := rapid.IntRange(0, len(p.Attrs)-1).Draw(t, l+"-pj")
 					switch rapid.IntRange(0, 2).Draw(t, l+"-pk") {
